@@ -70,7 +70,7 @@ func (v *Value) String() string {
 // opaque struct types modelled without fields
 var opaqueStructs = map[string]bool{
 	"sync.Mutex": true, "sync.RWMutex": true, "sync.Once": true, "sync.WaitGroup": true,
-	"sync/atomic.Value": true, "sync.Map": true, "sync/atomic.Bool": true,
+	"sync.Map": true, "sync/atomic.Bool": true,
 }
 
 func typeName(t types.Type) string {
